@@ -21,7 +21,7 @@ func init() {
 		pRetryExact: 8, pRetryConfl: 4, pStaleAuth: 18, pEqualAuth: 18, pFenced: 14,
 		pScenario: 10, pSmallCap: 10, maxOps: 26, pWrongExpect: 30,
 		pBareQuorum: 15, pLostAcks: 8, pMinorityResp: 22,
-		pRepair: 3, pMdb: 6, pSameTerm: 3,
+		pRepair: 3, pMdb: 6, pSameTerm: 3, pOlderFence: 8,
 	})
 	Register(&Prop{Gen: func(g *Gen) {
 		base(g)
